@@ -129,28 +129,28 @@ Proof.
     destruct ((fst p =? qlo) && (snd p =? qhi)); lia.
 Qed.
 
-Definition read_bins keep reflen b s (r : read) := counted_bins keep reflen (r_dp r) b s.
+Definition read_bins keep b s (r : read) := counted_bins keep (r_reflen r) (r_dp r) b s.
 
-Definition spec_total keep reflen b s (reads : list read) : Z :=
-  fold_right (fun r acc => r_w r * Z.of_nat (length (read_bins keep reflen b s r)) + acc) 0 reads.
+Definition spec_total keep b s (reads : list read) : Z :=
+  fold_right (fun r acc => r_w r * Z.of_nat (length (read_bins keep b s r)) + acc) 0 reads.
 
-Definition spec_cell keep reflen b s (q : tkey) (reads : list read) : Z :=
+Definition spec_cell keep b s (q : tkey) (reads : list read) : Z :=
   let '(qk, qlo, qhi) := q in
-  fold_right (fun r acc => (if qk =? r_key r then r_w r * occ (qlo, qhi) (read_bins keep reflen b s r) else 0) + acc) 0 reads.
+  fold_right (fun r acc => (if qk =? r_key r then r_w r * occ (qlo, qhi) (read_bins keep b s r) else 0) + acc) 0 reads.
 
-Lemma spec_total_cons keep reflen b s r reads :
-  spec_total keep reflen b s (r :: reads)
-  = r_w r * Z.of_nat (length (read_bins keep reflen b s r)) + spec_total keep reflen b s reads.
+Lemma spec_total_cons keep b s r reads :
+  spec_total keep b s (r :: reads)
+  = r_w r * Z.of_nat (length (read_bins keep b s r)) + spec_total keep b s reads.
 Proof. reflexivity. Qed.
 
-Lemma spec_cell_cons keep reflen b s qk qlo qhi r reads :
-  spec_cell keep reflen b s (qk, qlo, qhi) (r :: reads)
-  = (if qk =? r_key r then r_w r * occ (qlo, qhi) (read_bins keep reflen b s r) else 0)
-    + spec_cell keep reflen b s (qk, qlo, qhi) reads.
+Lemma spec_cell_cons keep b s qk qlo qhi r reads :
+  spec_cell keep b s (qk, qlo, qhi) (r :: reads)
+  = (if qk =? r_key r then r_w r * occ (qlo, qhi) (read_bins keep b s r) else 0)
+    + spec_cell keep b s (qk, qlo, qhi) reads.
 Proof. reflexivity. Qed.
 
-Lemma table_total_gen keep reflen b s : forall reads t,
-  total (fold_left (add_read keep reflen b s) reads t) = total t + spec_total keep reflen b s reads.
+Lemma table_total_gen keep b s : forall reads t,
+  total (fold_left (add_read keep b s) reads t) = total t + spec_total keep b s reads.
 Proof.
   induction reads as [|r reads IH]; intros t.
   - cbn [fold_left]. unfold spec_total, spec_cell. cbn [fold_right]. lia.
@@ -158,9 +158,9 @@ Proof.
     unfold read_bins. lia.
 Qed.
 
-Lemma table_cell_gen keep reflen b s qk qlo qhi : forall reads t,
-  cell (qk, qlo, qhi) (fold_left (add_read keep reflen b s) reads t)
-  = cell (qk, qlo, qhi) t + spec_cell keep reflen b s (qk, qlo, qhi) reads.
+Lemma table_cell_gen keep b s qk qlo qhi : forall reads t,
+  cell (qk, qlo, qhi) (fold_left (add_read keep b s) reads t)
+  = cell (qk, qlo, qhi) t + spec_cell keep b s (qk, qlo, qhi) reads.
 Proof.
   induction reads as [|r reads IH]; intros t.
   - cbn [fold_left]. unfold spec_total, spec_cell. cbn [fold_right]. lia.
@@ -197,20 +197,20 @@ Definition pair_dec (a b : Z * Z) : {a = b} + {a <> b}.
 Proof. decide equality; apply Z.eq_dec. Defined.
 
 (* ---- declarative table specification: independent of the bins functions *)
-Definition contributes (keep : bool) (reflen b s : Z) (r : read) (q : tkey) : bool :=
+Definition contributes (keep : bool) (b s : Z) (r : read) (q : tkey) : bool :=
   let '(k, lo, hi) := q in
   (k =? r_key r) && (lo mod s =? 0) && (hi =? lo + b) && (lo <=? r_dp r) && (r_dp r <? hi)
-  && (keep || ((0 <=? lo) && (hi <=? reflen))).
+  && (keep || ((0 <=? lo) && (hi <=? r_reflen r))).
 
-Definition decl_cell keep reflen b s (q : tkey) (reads : list read) : Z :=
-  fold_right (fun r acc => (if contributes keep reflen b s r q then r_w r else 0) + acc) 0 reads.
+Definition decl_cell keep b s (q : tkey) (reads : list read) : Z :=
+  fold_right (fun r acc => (if contributes keep b s r q then r_w r else 0) + acc) 0 reads.
 
-Lemma contributes_occ keep reflen b s r k lo hi : 0 < s ->
-  (if k =? r_key r then r_w r * occ (lo, hi) (read_bins keep reflen b s r) else 0)
-  = if contributes keep reflen b s r (k, lo, hi) then r_w r else 0.
+Lemma contributes_occ keep b s r k lo hi : 0 < s ->
+  (if k =? r_key r then r_w r * occ (lo, hi) (read_bins keep b s r) else 0)
+  = if contributes keep b s r (k, lo, hi) then r_w r else 0.
 Proof.
   intros Hs. unfold contributes, read_bins. destruct (k =? r_key r); cbn [andb]; [|reflexivity].
-  destruct (in_dec pair_dec (lo, hi) (counted_bins keep reflen (r_dp r) b s)) as [Hin|Hin].
+  destruct (in_dec pair_dec (lo, hi) (counted_bins keep (r_reflen r) (r_dp r) b s)) as [Hin|Hin].
   - rewrite occ_in_NoDup by (auto using counted_NoDup).
     apply counted_iff in Hin. destruct Hin as [Hin Hk].
     apply (membership bins_t bins_t_def) in Hin; [|assumption].
@@ -218,11 +218,11 @@ Proof.
     replace ((i * s) mod s =? 0) with true by (symmetry; apply Z.eqb_eq; apply Z_mod_mult).
     replace (i * s + b =? i * s + b) with true by (symmetry; apply Z.eqb_refl).
     replace (i * s <=? r_dp r) with true by lia. replace (r_dp r <? i * s + b) with true by lia.
-    replace (keep || ((0 <=? i * s) && (i * s + b <=? reflen))) with true; [cbn [andb]; lia|].
+    replace (keep || ((0 <=? i * s) && (i * s + b <=? r_reflen r))) with true; [cbn [andb]; lia|].
     destruct Hk as [->|Hk]; [reflexivity|]. destruct keep; [reflexivity|]. cbn [orb]. lia.
   - rewrite occ_notin by assumption.
     destruct ((lo mod s =? 0) && (hi =? lo + b) && (lo <=? r_dp r) && (r_dp r <? hi)
-              && (keep || ((0 <=? lo) && (hi <=? reflen)))) eqn:E; [|lia].
+              && (keep || ((0 <=? lo) && (hi <=? r_reflen r)))) eqn:E; [|lia].
     exfalso. apply Hin. rewrite !andb_true_iff in E. destruct E as [[[[E1 E2] E3] E4] E5].
     apply counted_iff. split.
     + apply (membership bins_t bins_t_def); [assumption|]. exists (lo / s).
@@ -231,27 +231,35 @@ Proof.
     + destruct keep; [left; reflexivity|right]. cbn [orb] in E5. lia.
 Qed.
 
-Lemma spec_cell_decl keep reflen b s k lo hi reads : 0 < s ->
-  spec_cell keep reflen b s (k, lo, hi) reads = decl_cell keep reflen b s (k, lo, hi) reads.
+Lemma spec_cell_decl keep b s k lo hi reads : 0 < s ->
+  spec_cell keep b s (k, lo, hi) reads = decl_cell keep b s (k, lo, hi) reads.
 Proof.
   intros Hs. induction reads as [|r reads IH]; [reflexivity|].
   rewrite spec_cell_cons, IH. unfold decl_cell. cbn [fold_right].
   rewrite <- contributes_occ by assumption. reflexivity.
 Qed.
 
-Lemma table_cell_decl keep reflen b s k lo hi reads : 0 < s ->
-  cell (k, lo, hi) (table keep reflen b s reads) = decl_cell keep reflen b s (k, lo, hi) reads.
+Lemma table_cell_decl keep b s k lo hi reads : 0 < s ->
+  cell (k, lo, hi) (table keep b s reads) = decl_cell keep b s (k, lo, hi) reads.
 Proof.
   intros Hs. unfold table. rewrite table_cell_gen. cbn [cell fold_right].
   rewrite spec_cell_decl by assumption. lia.
 Qed.
 
-Lemma table_total keep reflen b s reads :
-  total (table keep reflen b s reads) = spec_total keep reflen b s reads.
+Lemma table_total keep b s reads :
+  total (table keep b s reads) = spec_total keep b s reads.
 Proof. unfold table. rewrite table_total_gen. cbn [total fold_right]. lia. Qed.
 
 Lemma split_double_bin_ok ds b : 0 < b -> split_double_bin ds b = Some (b * (ds / b), b * (ds / b) + b).
 Proof.
   intros Hb. unfold split_double_bin. change t_coordinate_to_bins with bins_t.
   rewrite (no_sliding bins_t bins_t_def) by assumption. reflexivity.
+Qed.
+
+(* a history of calls: the table of every call is the table of that call alone (nothing is carried over
+   from earlier calls, alignment files or contigs) *)
+Lemma history_nth calls n keep b s reads :
+  nth_error calls n = Some (keep, b, s, reads) -> nth_error (history calls) n = Some (table keep b s reads).
+Proof.
+  intros H. unfold history. rewrite nth_error_map, H. reflexivity.
 Qed.
